@@ -37,7 +37,14 @@ type vhConn struct {
 	written  [][]byte
 	closed   bool
 	eofReads int
+	raddr    string // "" = fake:1
+	laddr    string
 }
+
+type vhNamedAddr string
+
+func (a vhNamedAddr) Network() string { return "tcp" }
+func (a vhNamedAddr) String() string  { return string(a) }
 
 func (c *vhConn) Read(p []byte) (int, error) {
 	c.reads++
@@ -75,8 +82,18 @@ func (c *vhConn) Write(p []byte) (int, error) {
 	return len(p), nil
 }
 func (c *vhConn) Close() error                       { c.closed = true; return nil }
-func (c *vhConn) RemoteAddr() net.Addr               { return vhAddr{} }
-func (c *vhConn) LocalAddr() net.Addr                { return vhAddr{} }
+func (c *vhConn) RemoteAddr() net.Addr {
+	if c.raddr != "" {
+		return vhNamedAddr(c.raddr)
+	}
+	return vhAddr{}
+}
+func (c *vhConn) LocalAddr() net.Addr {
+	if c.laddr != "" {
+		return vhNamedAddr(c.laddr)
+	}
+	return vhAddr{}
+}
 func (c *vhConn) SetDeadline(t time.Time) error      { return nil }
 func (c *vhConn) SetReadDeadline(t time.Time) error  { return nil }
 func (c *vhConn) SetWriteDeadline(t time.Time) error { return nil }
@@ -124,12 +141,17 @@ type vhDelivered struct {
 }
 
 type vhHandler struct {
-	got    []vhDelivered
-	failed []vivid.Envelop
+	got      []vhDelivered
+	failed   []vivid.Envelop
+	reject   bool // the rejectAt-th envelope handed over is refused (as System.HandleRemotingEnvelop refuses an unroutable address)
+	rejectAt int
 }
 
 func (h *vhHandler) HandleRemotingEnvelop(system bool, senderAddr, senderPath, receiverAddr, receiverPath string, messageInstance any) error {
 	h.got = append(h.got, vhDelivered{system, senderAddr, senderPath, receiverAddr, receiverPath, messageInstance})
+	if h.reject && len(h.got)-1 == h.rejectAt {
+		return errors.New("unroutable envelope")
+	}
 	return nil
 }
 func (h *vhHandler) HandleFailedRemotingEnvelop(envelop vivid.Envelop) {
@@ -243,7 +265,8 @@ func VH_C14_recv_cut() {
 	var stream []byte
 	var bodies [][]byte
 	bad := -1
-	if vrtChoose(2) == 1 {
+	rejectMode := vrtParam("reject", 0) == 1 // separate job: unroutable envelope instead of cut / undecodable frame
+	if !rejectMode && vrtChoose(2) == 1 {
 		bad = vrtChoose(F)
 	}
 	for i := 0; i < F; i++ {
@@ -257,7 +280,7 @@ func VH_C14_recv_cut() {
 		stream = append(stream, vhFrame(b, false)...)
 	}
 	conn := &vhConn{stream: stream, partials: vrtParam("partials", 1), cut: -1}
-	if vrtChoose(2) == 1 {
+	if !rejectMode && vrtChoose(2) == 1 {
 		conn.cut = vrtChoose(len(stream) + 1)
 		if vrtChoose(2) == 1 {
 			conn.cutErr = errors.New("connection reset by peer")
@@ -265,6 +288,11 @@ func VH_C14_recv_cut() {
 		vrtReach("cut")
 	}
 	h := &vhHandler{}
+	if rejectMode {
+		// a well-framed, decodable envelope that the system refuses (bad address): it
+		// must not stop later frames either
+		h.reject, h.rejectAt = true, vrtChoose(F)
+	}
 	c := &tcpConnectionActor{conn: conn, codec: vhFrameCodec{}, envelopHandler: h, advertiseAddr: "peer:1"}
 	ctx := &vhCtx{ref: &vhRef{"l:1", "/conn"}, stream: &vhStream{}}
 	vhDrive(c, ctx, 4*F+8)
@@ -297,6 +325,9 @@ func VH_C14_recv_cut() {
 	vrtAssert(len(h.got) == len(want), "complete-frames-before-cut-delivered")
 	if bad >= 0 && len(want) > bad {
 		vrtReach("frame-after-undecodable-delivered")
+	}
+	if h.reject && len(h.got) > h.rejectAt+1 {
+		vrtReach("frame-after-unroutable-delivered")
 	}
 	vrtReach("done")
 }
@@ -442,5 +473,63 @@ func VH_C14_send_faults() {
 	if fails > 0 && limit > 0 {
 		vrtReach("retried")
 		vrtAssert(!slept, "caller-never-sleeps")
+	}
+}
+
+// vhSrvCtx is the server actor's context for the registration lemma: ActorOf
+// enforces unique child names like the real one.
+type vhSrvCtx struct {
+	vivid.ActorContext
+	names   map[string]bool
+	errs    int
+	replies int
+	stream  *vhStream
+}
+
+func (c *vhSrvCtx) Logger() log.Logger             { return log.GetDefault() }
+func (c *vhSrvCtx) EventStream() vivid.EventStream { return c.stream }
+func (c *vhSrvCtx) Reply(message vivid.Message)    { c.replies++ }
+func (c *vhSrvCtx) ActorOf(actor vivid.Actor, options ...vivid.ActorOption) (vivid.ActorRef, error) {
+	o := &vivid.ActorOptions{}
+	for _, f := range options {
+		f(o)
+	}
+	if c.names[o.Name] {
+		c.errs++
+		return nil, vivid.ErrorActorAlreadyExists
+	}
+	c.names[o.Name] = true
+	return &vhRef{"l:1", "/@remoting/" + o.Name}, nil
+}
+
+// VH_C14_redial_registers: a second connection to the same peer can be
+// registered while the actor of an earlier one still exists (a clean EOF at a
+// frame boundary leaves the old reader lingering; TCP gives the redial another
+// ephemeral local port, an accepted connection another remote port): otherwise
+// "once the peer is reachable again later messages are delivered" fails.
+func VH_C14_redial_registers() {
+	opts := vivid.NewActorSystemRemotingOptions()
+	s := NewServerActor(context.Background(), "l:1", "l:1", vhFrameCodec{}, &vhHandler{}, opts)
+	ctx := &vhSrvCtx{names: map[string]bool{}, stream: &vhStream{}}
+	p1, p2 := vrtChoose(3), vrtChoose(3)
+	vrtAssume(p1 != p2) // two open connections never share the 4-tuple
+	ports := []string{"50001", "50002", "50003"}
+	client := vrtBool()
+	mk := func(port string) *tcpConnectionActor {
+		conn := &vhConn{cut: -1}
+		if client {
+			conn.raddr, conn.laddr = "peer:9", "l:"+port
+		} else {
+			conn.raddr, conn.laddr = "peer:"+port, "l:1"
+		}
+		return &tcpConnectionActor{client: client, conn: conn, codec: vhFrameCodec{}, envelopHandler: &vhHandler{}, advertiseAddr: "peer:9"}
+	}
+	s.onConnection(ctx, mk(ports[p1]))
+	s.onConnection(ctx, mk(ports[p2]))
+	vrtAssert(ctx.errs == 0 && ctx.replies == 2, "second-connection-to-the-same-peer-is-registered")
+	if client {
+		vrtReach("dial")
+	} else {
+		vrtReach("accept")
 	}
 }
